@@ -26,4 +26,76 @@ def g08(pid, tier, replay):
     return graph.run_graph(pid, tier, plan, replay)
 
 
-CHECKS = {"C08": g08}
+
+
+def g09(pid, tier, replay):
+    plan = {
+        "design": [("MC_GraphLaws", "GraphLaws_quick.cfg", 3000)] if tier == Q else
+                  [("MC_GraphLaws", "GraphLaws_thorough.cfg", 7200), ("MC_GraphLaws", "GraphLaws_assoc.cfg", 3000)],
+        "gens": [{"args": ["--mode", "laws", "--n", "250" if tier == Q else "3000", "--ids", "4", "--rich", "0.3"]},
+                 {"args": ["--mode", "laws", "--n", "40" if tier == Q else "400", "--ids", "12", "--rich", "0.5"]}],
+        "rule": "every script takes three seeded random node lists x, y, z (half of them ill-formed: dangling edges, several "
+                "edges per source and type, repeated targets, roots that are not nodes; every schema field populated by "
+                "reflection with probability --rich) and runs union/add/intersect in all the orders the laws need; a case "
+                "is an (operation, operand values) pair, non-trivial when an operand has a node",
+        "assumptions": ASSUME_GRAPH,
+    }
+    return graph.run_graph(pid, tier, plan, replay)
+
+
+def g11(pid, tier, replay):
+    plan = {
+        "design": [("GraphMachine", "GraphMachine_frames.cfg", 900)],
+        "gens": [{"args": ["--mode", "readonly", "--n", "150" if tier == Q else "1500", "--len", "24", "--ids", "5"]},
+                 {"args": ["--mode", "edit", "--n", "100" if tier == Q else "1000", "--len", "10", "--ids", "5", "--rich", "0.5"]}],
+        "rule": "operands with every schema field populated by reflection (probability 0.6) and unsorted roots, targets and "
+                "attribute lists; every read-only / value-returning public operation incl. the three serializers; ALL "
+                "registers are snapshotted before and after every call; distinct by (operation, operands)",
+        "assumptions": ASSUME_GRAPH + ["the concurrency clause (no data race between read-only operations) is decided by the "
+                                       "-race runs of ./check C11's schedule part"],
+    }
+    return graph.run_graph(pid, tier, plan, replay)
+
+
+def g12(pid, tier, replay):
+    plan = {
+        "heap": True,
+        "design": [("GraphMachine", "GraphMachine_frames.cfg", 900)],
+        "gens": [{"args": ["--mode", "heap", "--n", "300" if tier == Q else "3000", "--len", "14", "--ids", "4"]}],
+        "rule": "histories op; Mutate; op; Mutate over four registers: copies, unions and intersections of shared operands "
+                "interleaved with reflective mutation of one mutable location (every scalar, list element, map entry, "
+                "append, truncate, nested message, chosen by index over the schema); address sets of results and operands "
+                "must be disjoint and a mutation may change only the mutated register",
+        "assumptions": ASSUME_GRAPH + ["heap identity is the set of base addresses of reachable slices, maps and messages; "
+                                       "interior aliasing of a sub-slice with a different base is only caught by the mutation frame"],
+    }
+    return graph.run_graph(pid, tier, plan, replay)
+
+
+def g15(pid, tier, replay):
+    plan = {
+        "design": [("MC_GraphLaws", "Extract_quick.cfg" if tier == Q else "Extract_thorough.cfg", 3000)],
+        "gens": [{"args": ["--mode", "extract", "--n", "60" if tier == Q else "600", "--ids", "4"]},
+                 {"args": ["--mode", "extract", "--n", "6" if tier == Q else "40", "--ids", "12"]}],
+        "rule": "seeded random directed multigraphs (two edge types, arbitrary root sets, a third ill-formed with dangling "
+                "targets), every start node incl. an unknown one, every depth 1..n+1, on the list and on a shuffled copy; "
+                "each call runs under a 20 s deadline",
+        "assumptions": ASSUME_GRAPH + ["termination is decided by a per-call deadline on the real code, not by a liveness proof"],
+    }
+    return graph.run_graph(pid, tier, plan, replay)
+
+
+def g16(pid, tier, replay):
+    plan = {
+        "design": [("MC_GraphLaws", "Match_quick.cfg" if tier == Q else "Match_thorough.cfg", 3000)],
+        "gens": [{"args": ["--mode", "match", "--n", "300" if tier == Q else "4000", "--ids", "4"]},
+                 {"args": ["--mode", "lookup", "--n", "60" if tier == Q else "600", "--ids", "5"]}],
+        "rule": "lists of up to 4 nodes over 3 hash algorithms x {absent, v, w}, purl in {absent, p, q}, files and packages; "
+                "each probe is matched against the list and two shuffles, three times each (map iteration order); lookups "
+                "by id, name, identifier type/value, purl type, roots incl. repeated identifiers",
+        "assumptions": ASSUME_GRAPH + ["hash values are non-empty strings (AddHash refuses empty values)"],
+    }
+    return graph.run_graph(pid, tier, plan, replay)
+
+
+CHECKS = {"C08": g08, "C09": g09, "C10": g09, "C11": g11, "C12": g12, "C15": g15, "C16": g16}
